@@ -36,6 +36,9 @@ enum Item {
     Func { name: String, sig: u8 },
     /// world-level `use pkg/types[@ver].{rec};`
     UseRec { pkg: String, ver: Option<String> },
+    /// `name: <interface>`: in WIT an inline interface; in a WAC document that declares its own world, a
+    /// reference to a locally declared interface `kind` (one declaration, hence one type id, per (kind, shape))
+    Inline { name: String, kind: String, shape: u8 },
 }
 
 #[derive(Clone, Debug, Serialize, Deserialize, Default)]
@@ -69,6 +72,12 @@ struct PairRecipe {
     /// interfaces are then NOT among its explicit imports
     #[serde(default)]
     local_world: bool,
+    /// explicit imports of the document typed by an interface: (name, kind, shape)
+    #[serde(default)]
+    doc_imports: Vec<(String, String, u8)>,
+    /// `export <local> as <name>;` statements (pass-through of explicit imports)
+    #[serde(default)]
+    doc_exports: Vec<(String, String)>,
 }
 
 #[derive(Clone, Debug, Serialize, Deserialize)]
@@ -146,12 +155,17 @@ fn iface_ref(pkg: &str, name: &str, ver: &Option<String>) -> String {
     }
 }
 
+fn decl_name(kind: &str, shape: u8) -> String {
+    if shape == 0 { kind.to_string() } else { format!("{kind}-v{shape}") }
+}
+
 /// The pieces of one side: WIT sources of the dependency packages, the interfaces of the main package,
-/// and the body of the world.
-fn side_parts(main_pkg: &str, side: &Side) -> (Vec<(String, String)>, String, String) {
+/// the body of the world, and (for the WAC rendition) the declarations `name: body` the body refers to.
+fn side_parts(main_pkg: &str, side: &Side, wac: bool) -> (Vec<(String, String)>, String, String, Vec<(String, String)>) {
     // (pkg, ver) -> iface -> shape
     let mut deps: BTreeMap<(String, Option<String>), BTreeMap<String, u8>> = BTreeMap::new();
     let mut body = String::new();
+    let mut decls: Vec<(String, String)> = Vec::new();
     let add = |pkg: &str, ver: &Option<String>, name: &str, shape: u8, deps: &mut BTreeMap<_, BTreeMap<String, u8>>| {
         let e = deps.entry((pkg.to_string(), ver.clone())).or_default();
         e.entry(name.to_string()).or_insert(shape);
@@ -180,6 +194,18 @@ fn side_parts(main_pkg: &str, side: &Side) -> (Vec<(String, String)>, String, St
                         writeln!(body, "  use {}.{{rec}};", iface_ref(pkg, "types", ver)).unwrap();
                     }
                 }
+                Item::Inline { name, kind, shape } => {
+                    let b = iface_body(kind, (*shape).min(2));
+                    if wac {
+                        let d = decl_name(kind, *shape);
+                        if !decls.iter().any(|(n, _)| *n == d) {
+                            decls.push((d.clone(), b));
+                        }
+                        writeln!(body, "  {dir} {name}: {d};").unwrap();
+                    } else {
+                        writeln!(body, "  {dir} {name}: interface {{\n {b}\n }}").unwrap();
+                    }
+                }
             }
         }
     }
@@ -203,12 +229,12 @@ fn side_parts(main_pkg: &str, side: &Side) -> (Vec<(String, String)>, String, St
         };
         out.push((format!("{pkg}@{}", ver.clone().unwrap_or_default()), head + &t));
     }
-    (out, locals, body)
+    (out, locals, body, decls)
 }
 
 /// The WIT sources of one side: dependency packages first, the main package last.
 fn side_wit(main_pkg: &str, world: &str, side: &Side) -> Vec<(String, String)> {
-    let (mut out, locals, body) = side_parts(main_pkg, side);
+    let (mut out, locals, body, _) = side_parts(main_pkg, side, false);
     out.push((main_pkg.to_string(), format!("package {main_pkg};\n{locals}world {world} {{\n{body}}}\n")));
     out
 }
@@ -346,10 +372,26 @@ fn doc_text(r: &PairRecipe, with_targets: bool) -> String {
     let mut s = String::new();
     if r.local_world {
         s.push_str(if with_targets { "package c:d targets c:d/w;\n" } else { "package c:d;\n" });
-        let (_, locals, body) = side_parts("c:d", &r.world);
-        write!(s, "{locals}world w {{\n{body}}}\n").unwrap();
+        let (_, locals, body, mut decls) = side_parts("c:d", &r.world, true);
+        for (_, k, sh) in &r.doc_imports {
+            let d = decl_name(k, *sh);
+            if !decls.iter().any(|(n, _)| *n == d) {
+                decls.push((d, iface_body(k, (*sh).min(2))));
+            }
+        }
+        s.push_str(&locals);
+        for (n, b) in &decls {
+            write!(s, "interface {n} {{\n {b}\n}}\n").unwrap();
+        }
+        write!(s, "world w {{\n{body}}}\n").unwrap();
+        for (n, k, sh) in &r.doc_imports {
+            writeln!(s, "import {n}: {};", decl_name(k, *sh)).unwrap();
+        }
     } else {
         s.push_str(if with_targets { "package c:d targets t:w/w;\n" } else { "package c:d;\n" });
+        for (n, k, sh) in &r.doc_imports {
+            writeln!(s, "import {n}: interface {{\n {}\n}};", iface_body(k, (*sh).min(2))).unwrap();
+        }
     }
     for (n, sig) in &r.extra_imports {
         writeln!(s, "import {n}: {};", sig_text(*sig)).unwrap();
@@ -375,6 +417,9 @@ fn doc_text(r: &PairRecipe, with_targets: bool) -> String {
         if c.spread_exports && !c.side.exports.is_empty() {
             writeln!(exports, "export i{ci}...;").unwrap();
         }
+    }
+    for (l, n) in &r.doc_exports {
+        writeln!(exports, "export {l} as {n};").unwrap();
     }
     s + &lets + &exports
 }
@@ -547,6 +592,7 @@ fn run_pair(r: &PairRecipe) -> (String, String) {
             g.imports().map(|(n, k, node)| (n.to_string(), k, node.is_some())).collect();
         // export names: world exports, names the nodes carry, exports of the registered components
         let mut cand: Vec<String> = wexports.iter().map(|(n, _)| n.clone()).collect();
+        cand.extend(r.doc_exports.iter().map(|(_, n)| n.clone()));
         for n in g.nodes() {
             if let Some(e) = n.export_name() {
                 cand.push(e.to_string());
@@ -715,7 +761,9 @@ fn gen_world(r: &mut Rng, local: bool) -> Side {
     let mut s = Side::default();
     let ni = r.below(4);
     for _ in 0..ni {
-        let it = match if local { r.below(14) } else { r.below(10) } {
+        let it = match if local { r.below(16) } else { r.below(12) } {
+            14 | 15 => Item::Inline { name: r.pick(&["foo", "svc"]).to_string(), kind: "big".into(), shape: r.below(3) as u8 },
+            10 | 11 if !local => Item::Inline { name: r.pick(&["foo", "svc"]).to_string(), kind: "big".into(), shape: r.below(3) as u8 },
             10 | 11 => Item::Iface { pkg: "c:d".into(), name: "loc".into(), ver: None, shape: r.below(4) as u8 },
             12 | 13 => Item::UseRec { pkg: "c:d".into(), ver: None },
             0..=3 => Item::Iface { pkg: "x:y".into(), name: "z".into(), ver: rand_ver(r), shape: r.below(4) as u8 },
@@ -728,12 +776,22 @@ fn gen_world(r: &mut Rng, local: bool) -> Side {
     }
     let ne = r.below(3);
     for _ in 0..ne {
-        let it = match r.below(6) {
+        let it = match r.below(8) {
+            6 => Item::Inline { name: r.pick(&["foo", "svc", "api"]).to_string(), kind: "big".into(), shape: r.below(3) as u8 },
+            // exported under the very name of the interface declaration (only distinguishable in a local world)
+            7 => Item::Inline { name: "handler".into(), kind: "handler".into(), shape: 0 },
             0..=2 => Item::Iface { pkg: "x:y".into(), name: "out".into(), ver: rand_ver(r), shape: r.below(4) as u8 },
             3 => Item::Iface { pkg: "a:b".into(), name: "srv".into(), ver: rand_ver(r), shape: r.below(2) as u8 },
             _ => Item::Func { name: r.pick(&["run", "stop"]).to_string(), sig: r.below(5) as u8 },
         };
         push_unique(&mut s.exports, it);
+    }
+    if r.chance(if local { 2 } else { 1 }, 7) {
+        let it = Item::Inline { name: "foo".into(), kind: "big".into(), shape: r.below(2) as u8 };
+        s.imports.retain(|x| key(x) != "foo");
+        s.exports.retain(|x| key(x) != "foo");
+        s.imports.push(it.clone());
+        s.exports.push(it);
     }
     s
 }
@@ -743,6 +801,7 @@ fn key(it: &Item) -> String {
         Item::Iface { pkg, name, ver, .. } => iface_ref(pkg, name, ver),
         Item::Func { name, .. } => name.clone(),
         Item::UseRec { .. } => "use rec".to_string(),
+        Item::Inline { name, .. } => name.clone(),
     }
 }
 /// one shape per interface of a package version within a side, one item per name
@@ -765,7 +824,7 @@ fn normalise(s: &mut Side) {
     }
     // an interface cannot be imported and exported by name in our generator
     let imp: Vec<String> = s.imports.iter().map(key).collect();
-    s.exports.retain(|e| !imp.contains(&key(e)));
+    s.exports.retain(|e| matches!(e, Item::Inline { .. }) || !imp.contains(&key(e)));
 }
 
 fn gen_pair(r: &mut Rng) -> PairRecipe {
@@ -814,6 +873,7 @@ fn gen_pair(r: &mut Rng) -> PairRecipe {
                         Item::Iface { shape, .. } => *shape = (*shape + 1 + r.below(3) as u8) % 4,
                         Item::Func { sig, .. } => *sig = (*sig + 1 + r.below(4) as u8) % 5,
                         Item::UseRec { .. } => side.types_shape = 1,
+                        Item::Inline { shape, .. } => *shape = (*shape + 1 + r.below(2) as u8) % 3,
                     }
                 }
             }
@@ -824,6 +884,7 @@ fn gen_pair(r: &mut Rng) -> PairRecipe {
                     match &mut side.exports[i] {
                         Item::Iface { shape, .. } => *shape = (*shape + 1 + r.below(3) as u8) % 4,
                         Item::Func { sig, .. } => *sig = (*sig + 1 + r.below(4) as u8) % 5,
+                        Item::Inline { shape, .. } => *shape = (*shape + 1 + r.below(2) as u8) % 3,
                         _ => {}
                     }
                 }
@@ -860,7 +921,7 @@ fn gen_pair(r: &mut Rng) -> PairRecipe {
     let mut comps = Vec::new();
     // explicit imports of the document for some of the first component's imports
     let mut explicit_funcs = Vec::new();
-    let mut explicit_ifaces = Vec::new();
+    let mut explicit_ifaces: Vec<Item> = Vec::new();
     for it in &side.imports {
         match it {
             Item::Func { name, sig } if r.chance(1, 3) => explicit_funcs.push((name.clone(), *sig)),
@@ -868,8 +929,30 @@ fn gen_pair(r: &mut Rng) -> PairRecipe {
             _ => {}
         }
     }
+    // interface-typed explicit imports of the document, possibly passed through as exports
+    let mut doc_imports: Vec<(String, String, u8)> = Vec::new();
+    let mut doc_exports: Vec<(String, String)> = Vec::new();
+    let inl: Vec<Item> = side.imports.iter().filter(|i| matches!(i, Item::Inline { .. })).cloned().collect();
+    for it in inl {
+        if let Item::Inline { name, kind, shape } = &it {
+            if r.chance(2, 3) {
+                side.imports.retain(|x| key(x) != *name);
+                // the document may ask for less or more than the world offers under that name
+                let sh = if r.chance(1, 2) { *shape } else { r.below(3) as u8 };
+                if sh != *shape { tags.push("doc-import-type"); }
+                doc_imports.push((name.clone(), kind.clone(), sh));
+                // the same import is the export of that name
+                if side.exports.iter().any(|x| matches!(x, Item::Inline { .. }) && key(x) == *name) && r.chance(3, 4) {
+                    side.exports.retain(|x| key(x) != *name);
+                    doc_exports.push((name.clone(), name.clone()));
+                    tags.push("pass-through");
+                }
+            }
+        }
+    }
     // split the exports over two components now and then
-    let two = r.chance(3, 10);
+    let shared = r.chance(1, 8);
+    let two = shared || r.chance(3, 10);
     if two {
         let mut b = Side { types_shape: side.types_shape, ..Default::default() };
         if side.exports.len() >= 2 && r.chance(1, 2) {
@@ -885,6 +968,25 @@ fn gen_pair(r: &mut Rng) -> PairRecipe {
             b.imports.push(Item::Iface { pkg: "x:y".into(), name: "z".into(), ver: rand_ver(r), shape: r.below(3) as u8 });
             tags.push("second-component-import");
         }
+        if shared {
+            // both instantiations import one name at different, mergeable instance types
+            let (name, pkg) = if r.chance(1, 2) { ("z", "x:y") } else { ("q", "x:y") };
+            let ver = rand_ver(r);
+            let (sa, sb) = if r.chance(1, 2) { (0u8, 1u8) } else { (1u8, 0u8) };
+            side.imports.retain(|x| !matches!(x, Item::Iface { name: n, .. } if n == name));
+            b.imports.retain(|x| !matches!(x, Item::Iface { name: n, .. } if n == name));
+            explicit_ifaces.retain(|x| !matches!(x, Item::Iface { name: n, .. } if n == name));
+            side.imports.push(Item::Iface { pkg: pkg.into(), name: name.into(), ver: ver.clone(), shape: sa });
+            b.imports.push(Item::Iface { pkg: pkg.into(), name: name.into(), ver: ver.clone(), shape: sb });
+            // the world offers one of the two bodies (or the interface under another version / not at all)
+            let wshape = if r.chance(3, 4) { r.below(2) as u8 } else { r.below(4) as u8 };
+            if !local_world || r.chance(1, 2) {
+                world.imports.retain(|x| !matches!(x, Item::Iface { name: n, .. } if n == name));
+                world.imports.push(Item::Iface { pkg: pkg.into(), name: name.into(), ver, shape: wshape });
+                normalise(&mut world);
+            }
+            tags.push("shared-import");
+        }
         dedup_side(&mut b);
         normalise(&mut b);
         comps.push(CompSpec { pkg: "p:a".into(), side, explicit_funcs, explicit_ifaces, spread_exports: true });
@@ -893,7 +995,7 @@ fn gen_pair(r: &mut Rng) -> PairRecipe {
     } else {
         comps.push(CompSpec { pkg: "p:a".into(), side, explicit_funcs, explicit_ifaces, spread_exports: true });
     }
-    PairRecipe { world, comps, extra_imports, perturbation: if tags.is_empty() { "none".into() } else { tags.join("+") }, local_world }
+    PairRecipe { world, comps, extra_imports, perturbation: if tags.is_empty() { "none".into() } else { tags.join("+") }, local_world, doc_imports, doc_exports }
 }
 
 fn dedup_side(s: &mut Side) {
@@ -1018,6 +1120,8 @@ fn fixed() -> Vec<Recipe> {
             extra_imports: vec![],
             perturbation: "witness-import-version".into(),
             local_world: false,
+            doc_imports: vec![],
+            doc_exports: vec![],
         }),
         // export side: world exports x:y/out@0.2.1, composition exports x:y/out@0.2.0
         Recipe::Pair(PairRecipe {
@@ -1026,6 +1130,8 @@ fn fixed() -> Vec<Recipe> {
             extra_imports: vec![],
             perturbation: "witness-export-version".into(),
             local_world: false,
+            doc_imports: vec![],
+            doc_exports: vec![],
         }),
         // second known finding: the world is declared in the document and exports an interface that uses a type
         // of x:y/types; the composition (necessarily) imports x:y/types
@@ -1035,6 +1141,8 @@ fn fixed() -> Vec<Recipe> {
             extra_imports: vec![],
             perturbation: "witness-exported-interface-uses".into(),
             local_world: true,
+            doc_imports: vec![],
+            doc_exports: vec![],
         }),
         // conforming pair with a used interface
         Recipe::Pair(PairRecipe {
@@ -1043,6 +1151,8 @@ fn fixed() -> Vec<Recipe> {
             extra_imports: vec![],
             perturbation: "none".into(),
             local_world: false,
+            doc_imports: vec![],
+            doc_exports: vec![],
         }),
         // one extra import, one missing export, one type change
         Recipe::Pair(PairRecipe {
@@ -1051,6 +1161,8 @@ fn fixed() -> Vec<Recipe> {
             extra_imports: vec![("extra".into(), 0)],
             perturbation: "extra-import".into(),
             local_world: false,
+            doc_imports: vec![],
+            doc_exports: vec![],
         }),
         Recipe::Pair(PairRecipe {
             world: Side { imports: vec![z("0.2.1", 0)], exports: vec![run.clone(), out("1.0.0", 0)], types_shape: 0 },
@@ -1058,6 +1170,8 @@ fn fixed() -> Vec<Recipe> {
             extra_imports: vec![],
             perturbation: "missing-export".into(),
             local_world: false,
+            doc_imports: vec![],
+            doc_exports: vec![],
         }),
         Recipe::Pair(PairRecipe {
             world: Side { imports: vec![z("0.2.1", 0)], exports: vec![run.clone()], types_shape: 0 },
@@ -1065,6 +1179,8 @@ fn fixed() -> Vec<Recipe> {
             extra_imports: vec![],
             perturbation: "import-type".into(),
             local_world: false,
+            doc_imports: vec![],
+            doc_exports: vec![],
         }),
         Recipe::Pair(PairRecipe {
             world: Side { imports: vec![], exports: vec![Item::Func { name: "run".into(), sig: 1 }], types_shape: 0 },
@@ -1072,6 +1188,8 @@ fn fixed() -> Vec<Recipe> {
             extra_imports: vec![],
             perturbation: "export-type".into(),
             local_world: false,
+            doc_imports: vec![],
+            doc_exports: vec![],
         }),
         // the world is declared in the document; `types` is reached through `use` only
         Recipe::Pair(PairRecipe {
@@ -1083,6 +1201,8 @@ fn fixed() -> Vec<Recipe> {
             extra_imports: vec![],
             perturbation: "none".into(),
             local_world: true,
+            doc_imports: vec![],
+            doc_exports: vec![],
         }),
         // api: a used interface that is not an explicit import
         Recipe::Api(ApiRecipe {
@@ -1105,7 +1225,8 @@ fn main() {
     let seed: u64 = args.get(2).and_then(|s| s.parse().ok()).unwrap_or(1);
     let cases_out = args.get(3).expect("cases_out");
     let impl_out = args.get(4).expect("impl_out");
-    let replay = args.get(5);
+    let replay = args.get(5).filter(|s| s.as_str() != "-");
+    let corpus = args.get(6);
     std::panic::set_hook(Box::new(|_| {}));
     let mut recipes: Vec<Recipe> = Vec::new();
     if let Some(p) = replay {
@@ -1115,6 +1236,12 @@ fn main() {
         }
     } else {
         recipes.extend(fixed());
+        if let Some(p) = corpus {
+            for line in std::fs::read_to_string(p).expect("corpus file").lines() {
+                if line.trim().is_empty() || line.starts_with('#') { continue; }
+                recipes.push(serde_json::from_str(line).expect("corpus recipe"));
+            }
+        }
         let mut r = Rng::new(seed ^ 0xC11);
         let (npairs, napi) = if tier == "thorough" { (5000, 40000) } else { (300, 3000) };
         for _ in 0..npairs { recipes.push(Recipe::Pair(gen_pair(&mut r))); }
